@@ -230,6 +230,77 @@ func runCarrier(c *CCase) {
 	}
 }
 
+func mdOf(hdrs []HV) metadata.MD {
+	md := metadata.MD{}
+	for _, h := range hdrs {
+		if vs := h.strs(); len(vs) > 0 {
+			md.Append(unhex(h.Key), vs...)
+		}
+	}
+	return md
+}
+
+func attOf(hdrs []HV) map[string]interface{} {
+	att := map[string]interface{}{}
+	for _, h := range hdrs {
+		switch h.Shape {
+		case "s":
+			att[unhex(h.Key)] = h.strs()[0]
+		case "l":
+			att[unhex(h.Key)] = h.strs()
+		default:
+			att[unhex(h.Key)] = []interface{}{42, nil}[len(h.Key)%2]
+		}
+	}
+	return att
+}
+
+// carrierCall: an outgoing RPC made from inside a scope's callback on the scope's own context:
+// sender half on ctx (whose outgoing metadata / invocation already holds cl.Pre), then the
+// receiver half on a context of its own; reports the xid the callee finds
+func carrierCall(ctx context.Context, cl Call) (ob CallObs) {
+	ob.Kind, ob.Pre = cl.Kind, cl.Pre
+	ob.Want = tm.GetXID(ctx)
+	defer func() {
+		if p := recover(); p != nil {
+			ob.Panic = true
+		}
+	}()
+	switch cl.Kind {
+	case "grpc":
+		out := ctx
+		if pre := mdOf(cl.Pre); len(pre) > 0 {
+			out = metadata.NewOutgoingContext(out, pre)
+		}
+		var md metadata.MD
+		_ = sgrpc.ClientTransactionInterceptor(out, "/svc/m", nil, nil, nil,
+			func(c context.Context, method string, req, reply interface{}, cc *grpc.ClientConn, opts ...grpc.CallOption) error {
+				md, _ = metadata.FromOutgoingContext(c)
+				return nil
+			})
+		in := metadata.NewIncomingContext(context.Background(), md.Copy())
+		_, _ = sgrpc.ServerTransactionInterceptor(in, nil, &grpc.UnaryServerInfo{FullMethod: "/svc/m"},
+			func(c context.Context, req interface{}) (interface{}, error) {
+				ob.Got = tm.GetXID(c)
+				return nil, nil
+			})
+	case "dubbo":
+		f := sdubbo.GetDubboTransactionFilter()
+		inv := invocation.NewRPCInvocation("m", nil, attOf(cl.Pre))
+		att2 := map[string]interface{}{}
+		f.Invoke(ctx, &capInvoker{f: func(c context.Context, i protocol.Invocation) {
+			for k, v := range i.Attachments() {
+				att2[k] = v
+			}
+		}}, inv)
+		inv2 := invocation.NewRPCInvocation("m", nil, att2)
+		f.Invoke(context.Background(), &capInvoker{f: func(c context.Context, i protocol.Invocation) {
+			ob.Got = tm.GetXID(c)
+		}}, inv2)
+	}
+	return ob
+}
+
 var xidKeys = []string{"TX_XID", "tx_xid", "SEATA_XID", "seata_xid"}
 
 func mixCase(r *hutil.Rng, s string) string {
@@ -364,6 +435,10 @@ func GenCarrier(tier string, seed uint64) []*CCase {
 				add(kind, false, []HV{hv(k, "o")}, "")
 			}
 			add(kind, false, []HV{hv(k, "s", genXid(r))}, "")
+			// the sender runs WITHOUT a transaction (none / suspended) but its outgoing context still
+			// holds an xid under this spelling: nothing may travel
+			add(kind, true, []HV{hv(k, "s", "stale-xid")}, "")
+			add(kind, true, []HV{hv("user", "s", "u1"), hv(mixCase(r, k), "l", "stale-xid")}, "")
 			// a stale xid under this spelling is already in the outgoing context
 			add(kind, true, []HV{hv(k, "s", "stale-xid")}, sample)
 			add(kind, true, []HV{hv(k, "l", "stale-xid")}, sample)
@@ -372,6 +447,9 @@ func GenCarrier(tier string, seed uint64) []*CCase {
 		for i := 0; i < n; i++ {
 			add(kind, true, nil, genXid(r))
 			add(kind, true, genPre(r, kind), genXid(r)+"x")
+			if i%3 == 0 {
+				add(kind, true, genPre(r, kind), "")
+			}
 			k := mixCase(r, xidKeys[r.Intn(len(xidKeys))])
 			add(kind, false, []HV{shaped(r, kind, k, genXid(r))}, "")
 			if i%2 == 0 {
